@@ -308,15 +308,27 @@ func (fc *FuncCtx) dispatchCall(fr *Frame, st *State, com *ssa.CallCommon, key s
 	}
 	x := v.asTerm(st, args[0])
 	type impl struct {
-		spec  *FuncSpec
-		recvT types.Type
+		spec   *FuncSpec
+		recvT  types.Type
+		viaPtr bool // the interface holds *T, the method is declared on T (Go's implicit (*T).M wrapper: load *p, call (T).M)
 	}
 	var impls []impl
 	var alts []*Term
 	for _, k := range spec.Dispatch {
 		target := v.specs[k]
-		if target == nil || target.SameAs != "" || len(target.Dispatch) > 0 || target.Inline || target.Opaque {
-			unsupported("%s: dispatch %s: target must be a plain contract", key, k)
+		viaPtr := false
+		if target == nil && strings.HasPrefix(k, "(*") {
+			// `dispatch (*T).M` where M is declared with a value receiver: the contract of (T).M applied to the pointee
+			if t2 := v.specs["("+k[2:]]; t2 != nil {
+				if tf2, err := v.lookupFunc("(" + k[2:]); err == nil {
+					if r := tf2.Type().(*types.Signature).Recv(); r != nil && pointee(r.Type()) == nil {
+						target, viaPtr, k = t2, true, "("+k[2:]
+					}
+				}
+			}
+		}
+		if target == nil || target.SameAs != "" || len(target.Dispatch) > 0 || target.Opaque || (target.Inline && viaPtr) {
+			unsupported("%s: dispatch %s: target must be a plain contract (or an inline method)", key, k)
 		}
 		tf, err := v.lookupFunc(k)
 		if err != nil {
@@ -330,12 +342,18 @@ func (fc *FuncCtx) dispatchCall(fr *Frame, st *State, com *ssa.CallCommon, key s
 		if len(cp.ParamNames) == 0 {
 			cp.ParamNames, _ = sigParams(sig)
 		}
-		impls = append(impls, impl{&cp, sig.Recv().Type()})
-		alts = append(alts, c.Eq(c.UF("typeof", SInt, x), v.typeTag(sig.Recv().Type())))
+		impls = append(impls, impl{&cp, sig.Recv().Type(), viaPtr})
+		if viaPtr {
+			alts = append(alts, c.Eq(c.UF("typeof", SInt, x), v.typeTag(types.NewPointer(sig.Recv().Type()))))
+		} else {
+			alts = append(alts, c.Eq(c.UF("typeof", SInt, x), v.typeTag(sig.Recv().Type())))
+		}
 		if v.dispatchUsed == nil {
 			v.dispatchUsed = map[string]string{}
 		}
-		v.dispatchUsed[k] = key
+		if !target.Inline {
+			v.dispatchUsed[k] = key
+		}
 	}
 	cshort := shortFuncName(key)
 	fc.callCount[cshort]++
@@ -349,12 +367,36 @@ func (fc *FuncCtx) dispatchCall(fr *Frame, st *State, com *ssa.CallCommon, key s
 		bs := st.clone()
 		bs.assume(c, alts[i])
 		so := v.tm.SortOf(im.recvT)
-		name := "un" + boxName(im.recvT)
-		c.DeclareFun(name, []*Sort{SInt}, so)
-		bargs := append([]Val{{T: c.App(name, so, x), GoT: im.recvT}}, args[1:]...)
-		fc.dispatchRecv = im.recvT
-		r := fc.contractCall(fr, bs, com, im.spec.Key, im.spec, bargs, ins)
-		fc.dispatchRecv = nil
+		var bargs []Val
+		if im.viaPtr {
+			pt := types.NewPointer(im.recvT)
+			pso := v.tm.SortOf(pt)
+			name := "un" + boxName(pt)
+			c.DeclareFun(name, []*Sort{SInt}, pso)
+			p := c.App(name, pso, x)
+			fc.safety(bs, "nil", c.Not(c.Eq(p, c.Int(0))), ins.Pos(), "pointer receiver of a value-receiver method reached through an interface is not nil")
+			bs.assume(c, c.Not(c.Eq(p, c.Int(0))))
+			sv := v.load(bs, &Loc{Ref: p, HeapKey: v.heapKeyFor(im.recvT), Sort: so, GoT: im.recvT, RSort: so})
+			bargs = append([]Val{{T: sv, GoT: im.recvT}}, args[1:]...)
+		} else {
+			name := "un" + boxName(im.recvT)
+			c.DeclareFun(name, []*Sort{SInt}, so)
+			bargs = append([]Val{{T: c.App(name, so, x), GoT: im.recvT}}, args[1:]...)
+		}
+		var r Val
+		if im.spec.Inline {
+			// an `inline` implementation is executed in place on the unboxed receiver
+			fn := v.findFunction(im.spec.Key)
+			if fn == nil || len(fn.Blocks) == 0 {
+				unsupported("%s: dispatch to inline %s: no body available", key, im.spec.Key)
+			}
+			v.inlined[im.spec.Key] = true
+			r = fc.inline(fr, bs, fn, bargs, nil, ins.Pos())
+		} else {
+			fc.dispatchRecv = im.recvT
+			r = fc.contractCall(fr, bs, com, im.spec.Key, im.spec, bargs, ins)
+			fc.dispatchRecv = nil
+		}
 		if bs.dead {
 			continue
 		}
@@ -1062,6 +1104,13 @@ func (fc *FuncCtx) contractCall(fr *Frame, st *State, com *ssa.CallCommon, key s
 				// nothing can be written through a nil pointer (a callee `modifies *p.f` whose p.f may be nil); a bare pointer
 				// parameter `*p` is kept as a plain store (callee contracts require p != nil)
 				nh = c.Ite(c.Eq(pv.T, c.Int(0)), oldHeap, nh)
+			}
+			if a := m.Args[0]; a.Kind == "call" && (a.Name == "cast" || a.Name == "dyn" || a.Name == "unbox") && len(a.Args) == 2 {
+				// `modifies *cast(x, *T)`: nothing is written when the dynamic type of x is not *T (the cast is meaningless
+				// then) - a callee that decodes into one of several target types lists one clause per type
+				if is, err := calleeEnv.Eval(&Expr{Kind: "call", Name: "typeis", Args: a.Args}); err == nil {
+					nh = c.Ite(is.T, nh, oldHeap)
+				}
 			}
 			st.globals[hk] = nh
 			touched = append(touched, hk)
